@@ -60,6 +60,9 @@ func c13Pool(r *core.Rand) []c13Input {
 	add("text/html", `<!doctype html><title>t</title><style>a{background:url("data:image/svg+xml,%3Csvg xmlns='http://www.w3.org/2000/svg' width='10px'%3E%3Cpath d='M 0 0 L 10 10'/%3E%3C/svg%3E")}</style><svg xmlns="http://www.w3.org/2000/svg" width="10px"><style>rect{fill:#ff0000}</style><rect style="stroke: blue" x="0"/></svg><p onclick="javascript:f( 1 )" style="margin: 0px">x</p><script>var a = [1, 2];</script>`)
 	add("text/html", `<!doctype html><title>frames</title><p>before <iframe src="a.html"> fallback  <b>text</b> </iframe> after</p><!--[if IE]> <p>old  browser</p> <![endif]--><iframe><p>second</p></iframe>`)
 	add("text/css", `a{background:url("data:text/css,b%7Bcolor:%23ff0000;margin:0px%200px%7D")}c{color:#ff0000}@import url("data:text/css;base64,ZHtjb2xvcjojZmYwMDAwfQ==");`)
+	// legacy property rewrites with quote handling, the same construct in two quote styles (shared scratch data would mix them up)
+	add("text/css", `a{-ms-filter:"progid:DXImageTransform.Microsoft.Alpha(Opacity=50)";filter:progid:DXImageTransform.Microsoft.Alpha(Opacity=50);color:#ff0000}`)
+	add("text/css", `b{-ms-filter:'progid:DXImageTransform.Microsoft.Alpha(Opacity=25)';filter:alpha(opacity=25);margin:0px 0px}`)
 	add("image/svg+xml", `<?xml version="1.0"?><svg xmlns="http://www.w3.org/2000/svg" xmlns:xlink="http://www.w3.org/1999/xlink" width="100px" height="100px"><style>path{stroke:#000000}</style><path d="M 10,10 L 20,20 z" fill="#ff0000"/></svg>`)
 	add("text/xml", `<root a="x &quot;q&quot; y" b="it's"><![CDATA[ <keep> & ]]><item k="v">text  here</item><![CDATA[plain]]></root>`)
 	add("text/xml", `<r><a x="&quot;&quot;'">t</a><b y='"'>u</b><![CDATA[a<b]]></r>`)
@@ -71,6 +74,12 @@ func c13Pool(r *core.Rand) []c13Input {
 		add("application/javascript", src)
 		add("text/html", genHTMLDoc(r.Fork("h"), true))
 	}
+	// generated style sheets and SVG documents come last (the indices of the hand-written documents are used below)
+	var extra []c13Input
+	for i := 0; i < 40; i++ {
+		extra = append(extra, c13Input{"text/css", []byte(genStylesheet(r.Fork("css")))}, c13Input{"image/svg+xml", []byte(genSVGDoc(r.Fork("svg")))})
+	}
+	pool = append(extra, pool...)
 	return pool
 }
 
@@ -273,8 +282,8 @@ func c13Workload(seed uint64, goroutines, opsPer int) (problems []string, ops in
 			for k := 0; k < opsPer; k++ {
 				// few inputs, many goroutines: bias towards a handful of inputs
 				i := rr.Intn(len(pool))
-				if rr.Chance(1, 2) && len(pool) > 167 {
-					i = len(pool) - 167 + rr.Intn(7) // the seven hand-written re-entrant documents sit right before the 160 generated ones
+				if rr.Chance(1, 2) && len(pool) > 169 {
+					i = len(pool) - 169 + rr.Intn(9) // the nine hand-written re-entrant documents sit right before the 160 generated ones
 				}
 				op := rr.Intn(8)
 				out, es := c13Op(m, op, pool[i], shared[i])
